@@ -140,3 +140,43 @@ contract("artap.quality_indicator:gd", props=["C17"], options={"bounded_only": T
          ensures=["abs(result - sum([min([sqrt(sum([(r[i] - c[i]) * (r[i] - c[i]) for i in range(len(c))])) for r in reference]) "
                   "for c in computed]) / len(computed)) <= 1e-9",
                   "(abs(result) <= 1e-12) == all([any([list(r) == list(c) for r in reference]) for c in computed])"])
+
+# ---- the remaining listings of Results (sorted views, tables, Pareto listings): BOUNDED run-time contracts (sorted(), zip, dict views
+# are outside the subset).  `pop_of(self, pid)` is the independent reading: recorded individuals with that tag (largest tag for -1).
+define("pop_of", ["r", "pid"],
+       "[x for x in r.problem.individuals if x.population_id == (max(y.population_id for y in r.problem.individuals) if pid in (-1, None) else pid)]")
+_RB = dict(options={"bounded_only": True}, props=["C17"], trusted="bounded: listing functions checked at run time against an independent reading")
+contract("artap.results:Results.goal_on_parameter#sorted",
+         ensures=["builtins_sorted(zip(result[0], result[1])) == builtins_sorted((x.vector[ghost_pi], x.costs[ghost_gi]) for x in pop_of(self, population_id))",
+                  "result[0] == builtins_sorted(result[0])"], **_RB)
+contract("artap.results:Results.parameter_on_goal",
+         ensures=["builtins_sorted(zip(result[0], result[1])) == builtins_sorted((x.costs[ghost_gi], x.vector[ghost_pi]) for x in pop_of(self, population_id))",
+                  "implies(sorted, result[0] == list(builtins_sorted(result[0])))"], **_RB)
+contract("artap.results:Results.parameter_on_parameter",
+         ensures=["builtins_sorted(zip(result[0], result[1])) == builtins_sorted((x.vector[ghost_p1], x.vector[ghost_p2]) for x in pop_of(self, population_id))",
+                  "implies(sorted, result[0] == list(builtins_sorted(result[0])))"], **_RB)
+contract("artap.results:Results.goal_on_index",
+         ensures=["result[0] == list(range(len(pop_of(self, population_id))))",
+                  "implies(name is None, [list(c) for c in result[1:]] == [[x.costs[j] for x in pop_of(self, population_id)] for j in range(len(self.problem.costs))])",
+                  "implies(name is not None, len(result) == 2 and list(result[1]) == [x.costs[ghost_gi] for x in pop_of(self, population_id)])"], **_RB)
+contract("artap.results:Results.parameter_on_index",
+         ensures=["result[0] == list(range(len(pop_of(self, population_id))))",
+                  "implies(name is None, [list(c) for c in result[1:]] == [[x.vector[j] for x in pop_of(self, population_id)] for j in range(len(self.problem.parameters))])",
+                  "implies(name is not None, len(result) == 2 and list(result[1]) == [x.vector[ghost_pi] for x in pop_of(self, population_id)])"], **_RB)
+contract("artap.results:Results.costs",
+         ensures=["[list(c) for c in result] == [[x.costs[j] for x in self.problem.individuals] for j in range(len(self.problem.individuals[0].costs))]"], **_RB)
+contract("artap.results:Results.parameters",
+         ensures=["builtins_sorted(tuple(v) for v in result) == builtins_sorted(tuple(x.vector) for x in self.problem.individuals)"], **_RB)
+contract("artap.results:Results.pareto_front",
+         ensures=["[list(c) for c in result] == [[x.costs[j] for x in pop_of(self, population_id) if x.features['front_number'] == 1] "
+                  "for j in range(len(self.problem.costs))]"], **_RB)
+contract("artap.results:Results.pareto_individuals",
+         ensures=["[id(x) for x in result] == [id(x) for x in pop_of(self, population_id) if x.features['front_number'] == 1]"], **_RB)
+contract("artap.results:Results.table",
+         # every row pairs ONE individual's parameter values with that same individual's costs; every recorded individual once
+         ensures=["builtins_sorted(tuple(r) for r in (list(zip(*result)) if transpose else result)) == "
+                  "builtins_sorted(tuple(list(x.vector) + list(x.costs)) for x in self.problem.individuals)"], **_RB)
+contract("artap.problem:Problem.populations", props=["C17"], options={"bounded_only": True},
+         trusted="bounded: dict of lists (outside the subset)",
+         ensures=["builtins_sorted(result) == builtins_sorted(set(x.population_id for x in self.individuals))",
+                  "all([id(x) for x in result[t]] == [id(x) for x in self.individuals if x.population_id == t] for t in result)"])
